@@ -70,6 +70,21 @@ pub fn run(n: usize, rng: &mut Rng, rep: &mut Report) {
     // emphasis nesting is limited by max_nesting since fix 8078f5b; descriptions deeper than 256 levels still exist:
     // the allowance restarts below every nested image (30 images x 10 wrappers = depth > 330)
     let deep3 = format!("![{}x{}](/x)", format!("{}![", "*a ".repeat(10)).repeat(30), format!("](u){}", " b*".repeat(10)).repeat(30));
+    // images nested exactly up to the nesting limit: when all k images are produced, the outermost alt is the plain word
+    for (k, limit) in [(1usize, 1u32), (2, 2), (3, 3), (2, 3), (4, 4), (5, 5), (99, 100), (100, 100), (7, 100)] {
+        let d = format!("{}word{}", "![".repeat(k), "](u)".repeat(k));
+        let mut c = Cfg::cmark_only(); c.max_nesting = limit;
+        let m = c.build();
+        if let Ok(t) = crate::util::guarded(|| m.parse(&d)) {
+            let mut imgs = vec![]; images(&t, &mut imgs);
+            rep.stats.count("nesting_limit_family");
+            if imgs.len() == k {
+                let html = imgs[0].render();
+                let got = html.find(" alt=\"").map(|i| { let r = &html[i + 6..]; attr_unescape(&r[..r.find('"').unwrap_or(r.len())]) }).unwrap_or_default();
+                if got != "word" { rep.violation("alt-at-nesting-limit", format!("max_nesting={} src={}", limit, hexs(&d)), format!("{} nested images are produced, the outermost alt is {:?}, the description displays \"word\"", k, got)); }
+            }
+        }
+    }
     for i in 0..n + corpus.len() + 3 {
         let d = if i == n + corpus.len() + 2 { deep3.clone() } else if i == n + corpus.len() { deep.clone() } else if i == n + corpus.len() + 1 { deep2.clone() } else if i < corpus.len() { corpus[i].to_string() } else if rng.chance(1, 5) {
             // containers whose only child is a lone delimiter run / a break at the start
@@ -120,6 +135,28 @@ pub fn run(n: usize, rng: &mut Rng, rep: &mut Report) {
                     rep.stats.count("compared_in_context");
                     if got2 != alone2 {
                         rep.violation("alt-context-dependent", format!("src={}", hexs(&d2)), format!("alt {:?} after the text {:?}, but {:?} when the image stands alone", got2, pre, alone2));
+                    }
+                }
+            }
+        }
+        // "the characters its description would display as inline text": the description D on its OWN, as a paragraph,
+        // displays what the alt says (D one line, starting with a letter and ending with a letter or digit so that neither a
+        // block construct nor the flanking of a final delimiter run can differ; the image covers the whole source)
+        if d.starts_with("![") && d.ends_with("](/x)") && !d.contains('\n') {
+            let desc = &d[2..d.len() - 5];
+            let ok_shape = desc.chars().next().map_or(false, |c| c.is_ascii_alphabetic()) && desc.chars().last().map_or(false, |c| c.is_ascii_alphanumeric());
+            let mut imgs = vec![]; images(&tree, &mut imgs);
+            let whole = imgs.first().and_then(|im| im.srcmap).map_or(false, |m| m.get_byte_offsets() == (0, d.len()));
+            if ok_shape && whole {
+                if let (Some((alt, _)), Ok(mut t3)) = (second.clone(), crate::util::guarded(|| md.parse(desc))) {
+                    if t3.children.len() == 1 && crate::dump::kind(&t3.children[0]) == "Paragraph" {
+                        let ch = std::mem::take(&mut t3.children[0].children);
+                        if let Ok(disp) = crate::util::guarded(move || display_via_html(ch)) {
+                            rep.stats.count("compared_with_standalone_description");
+                            if disp != alt && !alt.contains('\0') && !alt.contains('\u{fffd}') {
+                                rep.violation("alt-vs-standalone-description", input.clone(), format!("alt {:?}, but the description parsed on its own displays {:?}", alt, disp));
+                            }
+                        }
                     }
                 }
             }
